@@ -160,12 +160,18 @@ proof fn lemma_inserted(rs: Seq<Range<usize>>, p: int, new: Range<usize>)
     }
 //@end
 
+/// `max(new.len(), 1)`: a deletion in an empty line is reported as column range 0..1
+spec fn line_bound(new: &str) -> int {
+    if new.len() == 0 { 1 } else { new.len() as int }
+}
+
 //@unit id=Dd file=src/diff_parser.rs fn=line_diff ret=r
 //@contract
     ensures
         ranges_wf(r@), // [Dd.post.ranges_wf]
+        forall|i: int| 0 <= i < r@.len() ==> (#[trigger] r@[i]).end <= line_bound(new), // [Dd.post.ranges_within_line]
 //@edit rule=E3 find=<<new.char_indices().map(|(offset, _)| offset).collect()>>
-similar::verif_char_byte_offsets(new)
+verif_char_byte_offsets(new)
 //@closure rule=E12 find=<<|char_index: usize|>> params=<<|char_index: usize|>> ret=<<b: usize>>
         ensures
             b == (if char_index < byte_offsets@.len() { byte_offsets@[char_index as int] } else { new.len() }), // [Dd.closure.byte_at]
@@ -174,6 +180,21 @@ for op in it: diff.ops()
         invariant
             ranges_wf(result@), // [Dd.inv.ranges_wf]
             byte_offsets@.len() >= 1,
+            new.len() <= isize::MAX,
+            forall|i: int| 0 <= i < byte_offsets@.len() ==> (#[trigger] byte_offsets@[i]) <= new.len(), // [Dd.inv.offsets_within_new]
+            forall|i: int| 0 <= i < byte_offsets@.len() - 1 ==> (#[trigger] byte_offsets@[i]) < new.len(),
+            byte_offsets@.len() == 1 ==> new.len() == 0,
+            forall|c: int| covered(result@, c) ==> c < line_bound(new), // [Dd.inv.covered_within_line]
+            forall|x: usize| #[trigger] call_requires(byte_at, (x,)),
+            forall|x: usize, b: usize| #[trigger] call_ensures(byte_at, (x,), b)
+                ==> b == (if x < byte_offsets@.len() { byte_offsets@[x as int] } else { new.len() }),
+            forall|i: int| 0 <= i < diff.spec_ops().len() ==> similar::op_new_end_fits(#[trigger] diff.spec_ops()[i]),
+//@edit rule=ghost before=<<result }>>
+    proof {
+        assert forall|i: int| 0 <= i < result@.len() implies (#[trigger] result@[i]).end <= line_bound(new) by {
+            assert(covered(result@, result@[i].end - 1));
+        }
+    }
 //@end
 
 } // verus!
